@@ -192,3 +192,32 @@ Theorem filter_by_ids_twice : forall keepA keepB invA invB a t t1 t2,
   t2 = filter_table (map (fun x => xorb (zmem x keepA) invA && xorb (zmem x keepB) invB) (ids a t)) a t.
 Proof. exact filter_ids_twice. Qed.
 Print Assumptions filter_by_ids_twice.
+
+(* ---- tie to the source of the metadata normalisation (filter_table = norm_md . filter_mask is where the
+   cast enters C08; Reorder, Concat, Partition, Merge, Ops and Indexed rest on the same ctor_md).
+   cast_metadata_gen is the inner function of Table._cast_metadata, ctor_init_*_gen the two metadata
+   blocks of Table.__init__, regenerated from biom/table.py by tools/py2v on every check
+   (Gen/HelpersGen.v).  For metadata in the models' vocabulary (every entry None or a mapping) the cast
+   IS ctor_md; any other entry makes the cast raise. *)
+From BiomV Require Gen.Prelude.
+From BiomV Require Import Gen.MdPrelude Gen.HelpersGen Proofs.GenBridgeCastProofs.
+Theorem cast_metadata_is_source : forall md,
+  md_entries_ok md = true -> cast_metadata_gen md = Gen.Prelude.Ok (ctor_md md).
+Proof. exact cast_metadata_bridge. Qed.
+Print Assumptions cast_metadata_is_source.
+
+Theorem cast_metadata_refuses_non_mapping : forall l,
+  md_entries_ok (Some l) = false -> exists e, cast_metadata_gen (Some l) = Gen.Prelude.Raise e.
+Proof. exact cast_metadata_refuses. Qed.
+Print Assumptions cast_metadata_refuses_non_mapping.
+
+(* the constructor: its block keeps the metadata as given unless every entry is falsy AND the size
+   matches (a wrong size is left for errcheck to see); followed by the cast it is ctor_md *)
+Theorem ctor_metadata_is_source : forall ids md,
+  (md_entries_ok md = true ->
+   cast_metadata_gen (ctor_init_samp_gen ids md) = Gen.Prelude.Ok (ctor_md md) /\
+   cast_metadata_gen (ctor_init_obs_gen ids md) = Gen.Prelude.Ok (ctor_md md)) /\
+  (forall l, length l <> length ids ->
+   ctor_init_samp_gen ids (Some l) = Some l /\ ctor_init_obs_gen ids (Some l) = Some l).
+Proof. intros ids md. split; [apply ctor_metadata_bridge|apply ctor_init_keeps_wrong_size]. Qed.
+Print Assumptions ctor_metadata_is_source.
